@@ -111,3 +111,16 @@ func (c *FakeConsul) Delete(key string) {
 		c.index++
 	}
 }
+
+// SetTaskState changes the master's view of a live task (e.g. TASK_KILLING, TASK_STARTING)
+// without telling the framework; the next reconciliation reports that state.
+func (s *Sim) SetTaskState(taskId string, st mesos.TaskState) bool {
+	s.mu.Lock()
+	defer s.mu.Unlock()
+	lt := s.live[taskId]
+	if lt == nil || lt.Terminal {
+		return false
+	}
+	lt.State = st
+	return true
+}
